@@ -111,6 +111,14 @@ NEEDS = {
  "C17-6": ("dispatch does not announce CompleteCleanupOnRestart", "restart of a channel in a cleanup status"),
  "C19-5": ("rejected restart fails the channel without recording the validator's voucher result", "rejected restart whose validation result carries a voucher result"),
  "C19-6": ("channelState holds a pointer to the record: the exported EmptyChannelState has a nil record", "any accessor on channels.EmptyChannelState"),
+ "C06-5": ("channels.New wraps the datastore in an autobatch write-behind buffer (flushed on Stop / listing)", "crash after a query returned a state: the application's datastore does not hold it yet"),
+ "C06-6": ("CborGenCompatibleNode.UnmarshalCBOR decodes with a hand-written options literal (AllowLinks false)", "stored voucher / result / selector containing a link"),
+ "C12-5": ("RestartChannel becomes optional in the schema and a pointer in the struct", "any request other than restart-existing-channel, read by a peer bound to the published schema"),
+ "C12-6": ("request IsVoucher() returns false for an empty voucher type", "voucher request with nil voucher or empty type: classified as no kind"),
+ "C13-5": ("migration maps zero-progress paused records to Requested instead of Ongoing", "version-2 record in a deprecated paused status with all byte counters zero"),
+ "C13-6": ("readyDispatcher returns the migration error, so Publish stops at the first listener", "failed migration with more than one OnReady listener"),
+ "C18-5": ("Start advances the ID counter to the largest stored transfer ID, remote-chosen ones included", "stored channel whose remote initiator chose an ID near 2^64"),
+ "C18-6": ("acceptRequest continues when CreateNew fails and the existing channel is still Requested with the same base CID", "duplicate new request arriving between CreateNew and Accept of the original"),
  "C19-2": ("NewVoucher restricted to a hand-built status list that omits ResponderFinalizingTransferFinished", "SendVoucher while the initiator is in ResponderFinalizingTransferFinished"),
 }
 NOT_CAUGHT={"C17-5":"the per-transfer subscriber misses Error / CleanupComplete only because the real notifier delivers them asynchronously, after the unsubscribe; the synchronous model delivers them inside channels.Error, before the unsubscribe runs - notification timing relative to the caller is declared outside the claim under C17","C09-6":"the re-run of the cleanup entry function needs an event to arrive in the window between entering Cancelling/Failing/Completing and CleanupComplete, which only exists in the asynchronous go-statemachine queue (the synchronous model finishes the cleanup before the next event); the unchanged tree has the same re-entry for the events that are already FromAny().ToNoChange() (DataReceived, Disconnected, ...), so this window is declared outside the claim under C09","C17-3":"needs the asynchronous notification queue of go-statemachine (a subscriber slower than 5 s lets the next notification overtake); the synchronous model group delivers notifications inside Send, so ordering under slow subscribers is declared outside the claim"}
